@@ -50,6 +50,10 @@ ERRORS = [
     ("unknown-keyword", ".bogus 1", 1), ("unterminated-comment", "/* never closed", 0),
     # a code lookup of a name bound to a number: the NodeError raised DURING code generation carries the statement's place
     ("code-lookup-number", "{{zz_cl5}}", None, "zz_cl5 := 5"), ("code-lookup-number-hex", "{{zz_cl16}} ; here", None, "zz_cl16 := 0x10"),
+    # offending lines longer than any screen: quoted in full, the column still an index into the quoted text
+    ("undef-long-line", ".dw " + ", ".join(["0x1234"] * 22) + ", zz_undef_name", None),
+    ("bad-suffix-long-line", "zz_" + "a" * 125 + ": lda.q #1", 128 + 2 + 4),
+    ("undef-long-comment", ".dw zz_undef_name ; " + "comment " * 20, None),
     # syntax errors whose offending token stands on the statement's own line (a statement that merely ends too early is
     # reported at the NEXT token, wherever that is: C17_parse_error_locus)
     ("syntax-second-comma", ".db 1, ,", 7), ("syntax-macro-number", ".macro 1", 7), ("syntax-if-brace", ".if {", 4),
@@ -79,7 +83,10 @@ NOISE = ["", "", "; a comment", "   ; indented comment", "/* one line */", "/* t
 WRAPS = [("block", ["{"], ["}"]), ("scope", [".scope zz_ws {"], ["}"]), ("if", [".if 1 {"], ["}"]),
          ("if-else", [".if 0 {", "nop", "} else {"], ["}"]), ("for", [".for zz_wi := 0, 1 {"], ["}"]),
          ("macro", [".macro zz_wm() {"], ["}", "zz_wm()"]), ("nested", ["{", ".scope zz_wn {", ".if 1 {"], ["}", "}", "}"]),
-         ("macro-in-for", [".macro zz_wf() {"], ["}", ".for zz_wj := 0, 1 {", "zz_wf()", "}"])]
+         ("macro-in-for", [".macro zz_wf() {"], ["}", ".for zz_wj := 0, 1 {", "zz_wf()", "}"]),
+         ("macro-in-macro", [".macro zz_wo() {", ".macro zz_wi() {"], ["}", "zz_wi()", "}", "zz_wo()"]),
+         ("code-argument", [".macro zz_wc(zz_c) {", "nop", "{{zz_c}}", "}", "zz_wc({"], ["})"]),
+         ("for-in-if", [".if 1 {", ".for zz_wk := 0, 1 {"], ["}", "}"])]
 
 
 def cases(ctx):
